@@ -237,11 +237,14 @@ class Exec:
         case = dict(s, choices=list(choices))
         est = "tls_established_client" if s["side"] == "client" else "tls_established_server"
         hooks = rig.hook_names()
-        hs_ok = (rig.crash is None and not rig.addon_errors and peer.error is None and peer.done and built and hooks.count(est) == 1
+        crashed = rig.crash is not None or bool(rig.addon_errors)
+        hs_ok = (peer.error is None and peer.done and built and hooks.count(est) == 1
                  and not any(h.startswith("tls_failed") for h in hooks) and rig.tls_conn.tls_established)
-        nontrivial = hs_ok and (not want_rx or bool(rig.child_rx)) and (not want_tx or bool(peer.plain))
+        nontrivial = hs_ok and not crashed and (not want_rx or bool(rig.child_rx)) and (not want_tx or bool(peer.plain))
         t.case(case if (nontrivial and any(choices) and len(t.samples) < 2) else None, nontrivial=nontrivial, key=case)
-        if not t.judge("handshake_completes", hs_ok, f, case, "established on both ends, no crash",
+        if not t.judge("no_exception_from_mitmproxy", not crashed, f, case, "no exception out of the layers or the addon", {"crash": rig.crash, "addon_errors": rig.addon_errors, "hooks": hooks}):
+            return
+        if not t.judge("handshake_completes", hs_ok, f, case, "established on both ends",
                        {"crash": rig.crash, "addon_errors": rig.addon_errors, "peer_error": repr(peer.error), "peer_done": peer.done, "hooks": hooks, "logs": rig.logs[-3:]}):
             return
         rx = bytes(rig.child_rx)
